@@ -127,13 +127,14 @@ def down (a : Int) : Nat → List Int
   | 0 => []
   | n+1 => a :: down (a-1) n
 
-/-- `forward_indexes.interleave(backward_indexes)`: `(t0+1)..=max_target_line` and
-`(0..min(t0, max_target_line + 1)).rev()` with `max_target_line = len - n` (lines behind it cannot
-match; when the backward range is clamped the forward range is empty).  `saturating_add` of the Rust
-code is the identity here: line numbers are unbounded integers in the model. -/
+/-- `forward_indexes.interleave(backward_indexes)`: `max(t0+1, 0)..=max_target_line` and
+`(0..min(t0, max_target_line + 1)).rev()` with `max_target_line = len - n` (lines behind it and
+negative lines cannot match; when the backward range is clamped the forward range is empty, when the
+forward range is clamped the backward range is empty).  `saturating_add` of the Rust code is the
+identity here: line numbers are unbounded integers in the model. -/
 def cands (t0 : Int) (len n : Nat) : List Int :=
   let maxT : Int := (len : Int) - n
-  interleave (up (t0 + 1) (maxT - t0).toNat) (down (min (t0 - 1) maxT) (min t0 (maxT + 1)).toNat)
+  interleave (up (max (t0 + 1) 0) (maxT - max t0 (-1)).toNat) (down (min (t0 - 1) maxT) (min t0 (maxT + 1)).toNat)
 
 /-- the first guess of `try_apply_hunk` in normal mode -/
 def firstGuess (v : View α) (len : Nat) (lastOff : Int) : Int :=
